@@ -19,10 +19,18 @@
 (* bare address, and relays the callback's stanza error.  A result that    *)
 (* carries no address assigns nothing: the property is silent (both        *)
 (* outcomes allowed).                                                      *)
+(*                                                                         *)
+(* A StreamFeature is a VALUE: a server builds its feature list once and   *)
+(* negotiates every connection with it.  The last section models feature   *)
+(* values that are shared by several (successive or overlapping) receiving *)
+(* sessions: "a fresh random resource" means a resourcepart that no bind   *)
+(* answered by this or any other feature value has handed out before, and  *)
+(* the callback is asked once per bind about that session's own request.   *)
 (***************************************************************************)
 EXTENDS Integers, Sequences, FiniteSets, TLC
 
 CONSTANTS MaxStr,  \* longest resourcepart (characters as in Header.tla: 1 letter, 2 ' 3 & 4 < 5 > 6 ")
+          NSess,   \* sessions negotiated with shared feature values (design check; emission: 2..NSess)
           Dev
 
 Chars == 1..6
@@ -84,16 +92,19 @@ VARIABLES sc,      \* the scenario
           addr,    \* initiator: what LocalAddr reports at the end ("own" until adopted)
           answer,  \* receiver: [id, kind, cond] written / NoAnswer
           cbarg,   \* receiver: what the callback was called with / Unset
-          out      \* "none" | "ready" | "error"
-vars == <<sc, pc, req, addr, answer, cbarg, out>>
+          out,     \* "none" | "ready" | "error"
+          sh       \* the shared-feature-value machine (last section) / NoShared
+vars == <<sc, pc, req, addr, answer, cbarg, out, sh>>
+NoShared == <<>>
 Unset == <<0>>
 NoAnswer == [id |-> <<>>, kind |-> "none", cond |-> ""]
 
 Init(S) == /\ sc \in S /\ pc = (IF sc.role = "init" THEN "i_request" ELSE "r_receive")
            /\ req = Unset /\ addr = "own" /\ answer = NoAnswer /\ cbarg = Unset /\ out = "none"
+           /\ sh = NoShared
 
 Request == /\ pc = "i_request" /\ req' = MustRequest(sc) /\ pc' = "i_reply"
-           /\ UNCHANGED <<sc, addr, answer, cbarg, out>>
+           /\ UNCHANGED <<sc, addr, answer, cbarg, out, sh>>
 Reply ==
   /\ pc = "i_reply" /\ pc' = "done"
   /\ CASE sc.kind = "result" -> addr' = sc.asg /\ out' = "ready"
@@ -101,18 +112,18 @@ Reply ==
                                       \/ out' = "error" /\ addr' = addr
        [] sc.kind = "wrongid" /\ "IgnoreId" \in Dev -> addr' = sc.asg /\ out' = "ready"
        [] OTHER -> out' = "error" /\ addr' = addr
-  /\ UNCHANGED <<sc, req, answer, cbarg>>
+  /\ UNCHANGED <<sc, req, answer, cbarg, sh>>
 
-Receive == /\ pc = "r_receive" /\ pc' = "r_callback" /\ UNCHANGED <<sc, req, addr, answer, cbarg, out>>
+Receive == /\ pc = "r_receive" /\ pc' = "r_callback" /\ UNCHANGED <<sc, req, addr, answer, cbarg, out, sh>>
 Callback == /\ pc = "r_callback" /\ pc' = "r_answer"
             /\ cbarg' = (IF sc.cb = "random" THEN Unset ELSE ResText(sc))
-            /\ UNCHANGED <<sc, req, addr, answer, out>>
+            /\ UNCHANGED <<sc, req, addr, answer, out, sh>>
 Answer ==
   /\ pc = "r_answer" /\ pc' = "done"
   /\ LET e == ExpRecv(sc) IN
      /\ answer' = (IF e.reply = "none" THEN NoAnswer ELSE [id |-> sc.id, kind |-> e.reply, cond |-> e.cond])
      /\ out' \in (IF e.outcome = "any" THEN {"ready", "error"} ELSE {e.outcome})
-  /\ UNCHANGED <<sc, req, addr, cbarg>>
+  /\ UNCHANGED <<sc, req, addr, cbarg, sh>>
 
 Next == Request \/ Reply \/ Receive \/ Callback \/ Answer
 Spec(S) == Init(S) /\ [][Next]_vars
@@ -136,4 +147,111 @@ C12_BindExpectation ==
     IF sc.role = "init"
     THEN LET e == ExpInit(sc) IN req = e.req /\ (e.outcome # "any" => out = e.outcome) /\ (out = "ready" /\ e.addr # "" => addr = e.addr)
     ELSE LET e == ExpRecv(sc) IN (e.outcome # "any" => out = e.outcome)
+(* ---------------------------------------------------------------- shared feature values *)
+(* xmpp.BindResource() / xmpp.BindCustom(f) return a VALUE that the application puts into *)
+(* a feature list; a server builds that list once and negotiates every connection it       *)
+(* accepts with it, also several at a time.  Nothing that belongs to one bind may therefore *)
+(* live in the feature value.  The machine below: feature values 1..Len(fk) (kinds: the     *)
+(* random default of BindResource(), the same default of BindCustom(nil), an application   *)
+(* callback), sessions 1..n, each negotiated with one of the feature values for one of two  *)
+(* accounts, interleaved at will:                                                          *)
+(*    SOpen(s)  header exchanged, <bind/> advertised, the session waits for the request    *)
+(*    SBind(s)  request read, callback / random source consulted, answer written           *)
+(* The random source hands out resourceparts from a finite pool; FRESH means: not handed   *)
+(* out before by this feature value or any other (used).                                   *)
+FeatKinds == {"random", "nil", "callback"}
+DefaultKinds == {"random", "nil"}             \* no callback: the library chooses the resourcepart
+Accounts == 1..2
+Tokens(n) == 1..n                             \* what the random source can produce in n draws
+NoAsg == [acct |-> 0, res |-> 0]
+NoCall == <<0, 0>>
+
+SharedInit(n) ==
+  /\ sc = [role |-> "shared"] /\ pc = "shared"
+  /\ req = Unset /\ addr = "own" /\ answer = NoAnswer /\ cbarg = Unset /\ out = "none"
+  /\ \E nf \in 1..2 :
+       sh \in [fk   : [1..nf -> FeatKinds],         \* the feature values and their kinds
+               fres : {[f \in 1..nf |-> f]},          \* (Dev) a resourcepart drawn when the value was built
+               sf   : [1..n -> 1..nf],               \* session -> the feature value it is negotiated with
+               acct : [1..n -> Accounts],            \* session -> the authenticated account
+               want : [1..n -> 0..1],                \* session -> requested resourcepart (0 = none)
+               spc  : {[s \in 1..n |-> "idle"]},
+               used : {{}},                          \* resourceparts handed out so far, by anybody
+               asg  : {[s \in 1..n |-> NoAsg]},       \* session -> the address in the answer
+               call : {[s \in 1..n |-> NoCall]}]      \* session -> what the callback was asked
+
+SOpen(s) ==
+  /\ sh.spc[s] = "idle"
+  /\ sh' = [sh EXCEPT !.spc[s] = "open"]
+
+(* the resourceparts a default bind of feature value f may assign *)
+Draw(f) == IF "ResourcePerFeature" \in Dev THEN {sh.fres[f]}      \* chosen when the value was built
+           ELSE Tokens(Len(sh.spc)) \ sh.used                      \* fresh
+SBind(s) ==
+  /\ sh.spc[s] = "open"
+  /\ LET f == sh.sf[s] IN
+     IF sh.fk[f] \in DefaultKinds
+     THEN \E t \in Draw(f) :
+            sh' = [sh EXCEPT !.spc[s] = "done", !.used = @ \cup {t},
+                             !.asg[s] = [acct |-> sh.acct[s], res |-> t]]
+     ELSE (* the application decides; the library's part is to ask it about THIS bind *)
+          \E a \in Accounts :
+            sh' = [sh EXCEPT !.spc[s] = "done", !.call[s] = <<sh.acct[s], sh.want[s]>>,
+                             !.asg[s] = [acct |-> a, res |-> 0]]
+
+SharedNext == /\ \E s \in DOMAIN sh.spc : SOpen(s) \/ SBind(s)
+              /\ UNCHANGED <<sc, pc, req, addr, answer, cbarg, out>>
+SharedSpec(n) == SharedInit(n) /\ [][SharedNext]_vars
+
+IsDefault(s) == sh.fk[sh.sf[s]] \in DefaultKinds
+Done(s) == sh.spc[s] = "done"
+(* default binds never hand out the same resourcepart twice: not within a feature value,   *)
+(* not across feature values, whatever the accounts and the interleaving                   *)
+C12_BindFresh ==
+  \A s, t \in DOMAIN sh.spc :
+     (s # t /\ Done(s) /\ Done(t) /\ IsDefault(s) /\ IsDefault(t)) => sh.asg[s].res # sh.asg[t].res
+(* ... on the bare address of the peer of THAT session *)
+C12_BindOwnAccount == \A s \in DOMAIN sh.spc : (Done(s) /\ IsDefault(s)) => sh.asg[s].acct = sh.acct[s]
+(* the callback is asked about that session's peer and request *)
+C12_BindCallbackOwnArgs ==
+  \A s \in DOMAIN sh.spc : (Done(s) /\ ~IsDefault(s)) => sh.call[s] = <<sh.acct[s], sh.want[s]>>
+
+(* Scenarios for the driver: feature values (kinds as in Callbacks, "nil" = BindCustom(nil)), *)
+(* sessions [f, acct, id, res] and a schedule: the k-th occurrence of s is SOpen(s) (k = 1) /  *)
+(* SBind(s) (k = 2).                                                                           *)
+SharedKinds == {"random", "nil", "requested", "chosen", "conflict"}
+CbOf(kind) == IF kind = "nil" THEN "random" ELSE kind
+Count(q, x) == Cardinality({i \in DOMAIN q : q[i] = x})
+Scheds(k) == {q \in [1..(2 * k) -> 1..k] : \A s \in 1..k : Count(q, s) = 2}
+Onto(k, nf) == {m \in [1..k -> 1..nf] : \A f \in 1..nf : \E s \in 1..k : m[s] = f}
+IdOf(s) == IF s % 2 = 1 THEN <<1>> ELSE <<1, 2, 3, 4, 6>>
+SharedScenario(feats, fv, accts, ress, sched) ==
+  [role |-> "shared", feats |-> feats,
+   sess |-> [s \in DOMAIN fv |-> [f |-> fv[s], acct |-> accts[s], id |-> IdOf(s), res |-> ress[s]]],
+   sched |-> sched]
+Seq4(a, b, c, d) == <<a, b, c, d>>
+SharedScenarios(full) ==
+  LET F1 == {<<k>> : k \in SharedKinds}
+      F2 == {<<"random", "random">>, <<"random", "nil">>, <<"nil", "nil">>, <<"random", "requested">>}
+      R  == {NoRes, <<1>>}
+  IN (* two sessions: every interleaving, accounts, requests *)
+     {SharedScenario(fs, fv, a, r, q) :
+        fs \in F1 \cup F2, fv \in Onto(2, 2) \cup Onto(2, 1), a \in [1..2 -> Accounts], r \in [1..2 -> R], q \in Scheds(2)}
+     (* three sessions: every interleaving *)
+     \cup {SharedScenario(fs, fv, a, <<NoRes, <<1>>, NoRes>>, q) :
+        fs \in (F1 \ {<<"conflict">>, <<"chosen">>}) \cup (F2 \ {<<"nil", "nil">>}),
+        fv \in Onto(3, 2) \cup Onto(3, 1), a \in {x \in [1..3 -> Accounts] : x[1] = 1}, q \in Scheds(3)}
+     (* four sessions: successive, all open before the first bind, nested; every interleaving in the thorough tier *)
+     \cup {SharedScenario(fs, fv, a, <<NoRes, NoRes, <<1>>, <<1, 2>>>>, q) :
+        fs \in {<<"random">>, <<"nil">>, <<"random", "nil">>}, fv \in {<<1, 1, 1, 1>>, <<1, 2, 1, 2>>},
+        a \in {Seq4(1, 1, 1, 1), Seq4(1, 2, 1, 2), Seq4(1, 1, 2, 2)},
+        q \in IF full THEN Scheds(4)
+              ELSE {<<1, 1, 2, 2, 3, 3, 4, 4>>, <<1, 2, 3, 4, 1, 2, 3, 4>>, <<1, 2, 3, 4, 4, 3, 2, 1>>, <<1, 2, 2, 3, 1, 4, 4, 3>>}}
+WellFormedShared(x) == \A s \in DOMAIN x.sess : x.sess[s].f \in DOMAIN x.feats
+(* per session what ExpRecv says for its request and its feature value's callback; and the   *)
+(* sessions whose assigned resourceparts must be pairwise distinct (C12_BindFresh)           *)
+ExpShared(x) ==
+  [per |-> [s \in DOMAIN x.sess |->
+              ExpRecv(RecvScenario(x.sess[s].id, x.sess[s].res, CbOf(x.feats[x.sess[s].f]), FALSE))],
+   fresh |-> [s \in DOMAIN x.sess |-> CbOf(x.feats[x.sess[s].f]) = "random"]]
 =============================================================================
